@@ -36,6 +36,7 @@ type World struct {
 	addrTaken map[*ssa.Function]bool
 	NPkgsTotal int
 	lockInfo   *LockInfo
+	Ext        map[string]*packages.Package // every loaded package by path (dependencies included)
 }
 
 func shortPkg(path string) string {
@@ -89,7 +90,8 @@ func LoadWorld(repoDir, label string, env []string, buildFlags []string) (*World
 		}
 		return nil, fmt.Errorf("type-check/load errors (nothing is decided on a program that does not compile):\n  %s", strings.Join(errs, "\n  "))
 	}
-	w := &World{RepoDir: repoDir, Config: label, ByPath: map[string]*packages.Package{}, SSA: map[string]*ssa.Package{}, NPkgsTotal: total}
+	w := &World{RepoDir: repoDir, Config: label, ByPath: map[string]*packages.Package{}, SSA: map[string]*ssa.Package{}, NPkgsTotal: total, Ext: map[string]*packages.Package{}}
+	packages.Visit(pkgs, nil, func(p *packages.Package) { w.Ext[p.PkgPath] = p })
 	for _, p := range pkgs {
 		if p.PkgPath == modPath || strings.HasPrefix(p.PkgPath, modPath+"/") {
 			if strings.Contains(p.PkgPath, "/_examples") {
@@ -370,6 +372,9 @@ func (w *World) Method(pkg, typ, meth string) *ssa.Function {
 // ConstInt returns the integer value of a package-level constant.
 func (w *World) ConstInt(pkg, name string) (int64, bool) {
 	p := w.ByPath[longPkg(pkg)]
+	if p == nil {
+		p = w.Ext[pkg]
+	}
 	if p == nil {
 		return 0, false
 	}
